@@ -100,7 +100,7 @@ class Session:
         return f"{base}#{n}"
 
     def check(self, kind: str, hyps: List[z3.ExprRef], goal: Any, line: int = 0, label: str = "",
-              expect_refuted: bool = False, want_model: bool = True, timeout_ms: int = 0) -> Obligation:
+              expect_refuted: bool = False, want_model: bool = True, timeout_ms: int = 0, ematching_first: bool = False) -> Obligation:
         """Discharge `hyps |= goal`. Returns the obligation (status set)."""
         if isinstance(goal, bool):
             goal = z3.BoolVal(goal)
@@ -108,6 +108,23 @@ class Session:
         ob = Obligation(name=name, kind=kind, line=line, function=self.target, expect_refuted=expect_refuted)
         ob.formula = (str(z3.simplify(goal)) if z3.is_expr(goal) else str(goal))[:400]
         t0 = time.time()
+        if ematching_first:
+            # hypotheses with quantifiers (E5): E-matching alone usually finds the refutation of the negated goal at once, while the
+            # default configuration spends its time looking for a model it cannot build
+            f = z3.SimpleSolver()
+            f.set("mbqi", False)
+            f.set("auto_config", False)
+            f.set("timeout", 3000)
+            f.add(*hyps)
+            f.add(z3.Not(goal))
+            fr = f.check()
+            if fr == z3.unsat or expect_refuted:
+                # (a vacuity canary under quantified hypotheses is never `sat`: not refuted by E-matching is what can be had)
+                ob.status, ob.backend = (DISCHARGED if fr == z3.unsat else UNDECIDED), "z3"
+                ob.time_s = time.time() - t0
+                self.solver_time += ob.time_s
+                self.obligations.append(ob)
+                return ob
         s = z3.Solver()
         s.set("timeout", timeout_ms or (2000 if expect_refuted else Z3_TIMEOUT_MS))
         s.add(*hyps)
